@@ -45,7 +45,10 @@ TIER = os.environ.get('VERIF_TIER', 'quick')
 QUERY_TIMEOUT_MS = 20000 if TIER == 'quick' else 60000
 FIRST_TIMEOUT_MS = 5000 if TIER == 'quick' else 30000
 BRANCH_TIMEOUT_MS = 2000
-MAX_PATHS = int(os.environ.get('PYVC_MAX_PATHS', '6000'))
+# path budget per harness (exceeding it is UNDECIDED, never a pass).  The thorough tier widens the enumerated dimensions of
+# some harnesses (C21 6 hosts: 9 408 paths, C22: 35 118, C32 4 statements: 28 316, C44 3 connections: 6 174), which the
+# quick budget cannot hold; the per-harness watchdog (cli.HARD_LIMIT_S) still bounds the time.
+MAX_PATHS = int(os.environ.get('PYVC_MAX_PATHS', '6000' if TIER == 'quick' else '250000'))
 CVC5 = '/usr/bin/cvc5'
 
 
